@@ -336,6 +336,64 @@ func c09Scenarios() []*concScenario {
 		closeSession(x, s)
 	}, sessionPost)
 
+	// H6b: dhcp handler: an INIT-REBOOT REQUEST for an unknown lease on the packet loop (NAK + forced DECLINE sent by a
+	// goroutine of the handler) || reader
+	add("H6b", 3, func(x *concExec) {
+		concReset()
+		s, conn := concSession()
+		conn.Yield = false
+		x.data["session"] = s
+		h, err := dhcp4.Config{Mode: dhcp4.ModeSecondaryServer, NetfilterIP: netip.MustParsePrefix("192.168.0.129/25"), DNSServer: ip4rtr, LeaseFilename: "leases.yaml"}.New(s)
+		if err != nil {
+			x.fail("setup", err.Error())
+			return
+		}
+		msg := refnet.DHCP4Msg{Op: 1, XID: 0x0a0b0c0d, CHAddr: env.MAC2, Options: [][2][]byte{{{53}, {3}}, {{50}, ip4b.AsSlice()}, {{61}, append([]byte{1}, env.MAC2...)}}}.Bytes()
+		req := refnet.Eth(bcast, env.MAC2, 0x0800, refnet.IP4(ip4zero, ip4bc, 17, refnet.UDP(68, 67, msg), refnet.IP4Opt{}))
+		threads(
+			func() {
+				buf := make([]byte, len(req), packet.EthMaxSize)
+				copy(buf, req)
+				if f, err := s.Parse(buf); err == nil {
+					h.ProcessPacket(f)
+					s.Notify(f)
+				}
+			},
+			func() {
+				s.FindIP(ip4b)
+				s.IsCaptured(env.MAC2)
+			},
+		)
+		vsched.WaitIdle()
+		h.Close()
+		vsched.WaitIdle()
+		x.observe(fmt.Sprintf("leases=%d", len(h.VerifLeases())))
+		closeSession(x, s)
+	}, sessionPost)
+
+	// H11: the packet loop notifying for a DHCP frame without source address (host found through its offer, a change
+	// pending) || Capture / Release of that MAC
+	add("H11", 3, func(x *concExec) {
+		concReset()
+		s, _ := concSession()
+		x.data["session"] = s
+		parseNotify(s, frame4(env.MAC1, ip4a))
+		s.DHCPv4Update(env.MAC1, ip4a, packet.NameEntry{Type: "dhcp", Name: "n1"}) // offer recorded, name change pending
+		disc := refnet.Eth(bcast, env.MAC1, 0x0800, refnet.IP4(ip4zero, ip4bc, 17, refnet.UDP(68, 67, dhcpDiscover(env.MAC1, 0x01020304)), refnet.IP4Opt{}))
+		threads(
+			func() {
+				parseNotify(s, disc)
+			},
+			func() {
+				s.Capture(env.MAC1)
+				s.Release(env.MAC1)
+			},
+		)
+		vsched.WaitIdle()
+		x.observe(fmt.Sprintf("hosts=%d notes=%d", len(s.GetHosts()), drain(s)))
+		closeSession(x, s)
+	}, sessionPost)
+
 	// H7: dns handler: ProcessDNS / ProcessMDNS on the packet loop || DNSFind / DNSExist / PrintDNSTable
 	add("H7", 3, func(x *concExec) {
 		concReset()
@@ -423,7 +481,7 @@ func raFrame(mac []byte, src netip.Addr, flags byte, lifetime uint16, options []
 
 func c09Run(c *core.Ctx, args []string) {
 	c.Res.Level = "model_checking"
-	c.Res.Rule = "stateless DFS over every schedule of each harness H1..H10, H5c (2-3 API/packet-loop threads plus the goroutines the code starts itself plus the clock) up to the deviation bound (thorough: each harness also with its threads started in the two rotated orders); every execution runs to completion under the controlled scheduler; oracles: no deadlock, no panic, no data race (race detector build, scheduler hand-offs invisible to it), table invariant at the final quiescent point, no goroutine left after Close. distinct = distinct observation vectors"
+	c.Res.Rule = "stateless DFS over every schedule of each harness H1..H11, H5c, H6b (2-3 API/packet-loop threads plus the goroutines the code starts itself plus the clock) up to the deviation bound (thorough: each harness also with its threads started in the two rotated orders); every execution runs to completion under the controlled scheduler; oracles: no deadlock, no panic, no data race (race detector build, scheduler hand-offs invisible to it), table invariant at the final quiescent point, no goroutine left after Close. distinct = distinct observation vectors"
 	c.Res.Assumptions = []string{"scheduling points at every lock, channel, spawn, timer and connection write of the instrumented packages; unsynchronised accesses are caught by the race detector on the explored schedules rather than interleaved", "bounded by the deviation (preemption) bound and the clock horizon; at most 3 harness threads"}
 	name := strings.TrimSuffix(c.Job, ".race")
 	bound := 2 // both tiers; the thorough tier adds the rotated thread orders of every harness
